@@ -70,6 +70,10 @@ def run(ctx):
     c01.core_dependency(ctx, P, "core.dep", ('fiber_manager_set_and_wait', 'fiber_manager_clear_or_wait', 'fiber_mark_completed', 'fiber_join', 'fiber_tryjoin', 'fiber_detach', 'fiber_join_routine', 'fiber_create'),
                         'the join hand-off (set_and_wait / clear_or_wait)',
                         "a joiner resumed from a stale context, or scheduled onto another thread's deque through a stale manager, returns twice or never")
+    from props import deps
+    deps.depend(ctx, P, "C19", "layout.dep", "the context buffer that precedes the join result in fiber_t",
+                "libgcc writes the split-stack context on every switch: if the buffer is too short the write lands on the fiber's `result`, which a joiner then reads as NULL",
+                lambda x: x.rule.startswith("splitstack."))
     o = ctx.ob("xchg", "", "after creation detach_state is modified only by atomic exchange (in mark_completed, join, tryjoin, detach)",
                "a plain store (or a load-then-store) lets both parties believe they were first: both park, or both wake")
     bad = None
